@@ -40,12 +40,45 @@ def thash(t):
     return hashlib.sha1(json.dumps(strip_private(t), sort_keys=True).encode()).hexdigest()
 
 
+CRASHES = []      # driver calls in which the library raised an exception that is not one of its own (collected by pmake / make)
+
+
+def _library_crash(e):
+    """'<Class> at <file>:<line> in <function>' if the innermost frame of *e* is library code and the class is not one of the
+    library's own exception classes; None otherwise (then it is the harness that failed)."""
+    src = os.path.realpath(os.environ.get('PENMAN_SRC', '/repo'))
+    tb = e.__traceback__
+    while tb.tb_next is not None:
+        tb = tb.tb_next
+    fn = os.path.realpath(tb.tb_frame.f_code.co_filename)
+    if not fn.startswith(src + os.sep):
+        return None
+    if type(e).__module__.startswith('penman'):
+        return None
+    return '%s at %s:%d in %s' % (type(e).__name__, os.path.relpath(fn, src), tb.tb_lineno, tb.tb_frame.f_code.co_name)
+
+
 def _call(job):
     from . import drive  # imported in the worker
     name, kw = job
-    t = getattr(drive, name)(**kw)
+    try:
+        t = getattr(drive, name)(**kw)
+    except Exception as e:  # noqa
+        where = _library_crash(e)
+        if where is None:
+            raise
+        # every driver feeds inputs inside its property's quantifier, on which the library returns or raises one of its
+        # documented errors; anything else escaping from library code is reported as a violation, not as a harness failure
+        return {'kind': 'crash', 'driver': name, 'exc': where, '_drv': [name, kw]}
     t['_drv'] = [name, kw]
     return t
+
+
+def _sift(traces):
+    keep = []
+    for t in traces:
+        (CRASHES if t.get('kind') == 'crash' else keep).append(t)
+    return keep
 
 
 def make(name, **kw):
@@ -61,10 +94,10 @@ def pmake(jobs, procs=None, chunksize=64):
     if os.environ.get('VERIF_COVER'):
         procs = 1          # line coverage is collected in this process
     if procs <= 1:
-        return [_call(j) for j in jobs]
+        return _sift([_call(j) for j in jobs])
     ctx = multiprocessing.get_context('fork')
     with ctx.Pool(procs) as pool:
-        return pool.map(_call, jobs, chunksize=chunksize)
+        return _sift(pool.map(_call, jobs, chunksize=chunksize))
 
 
 class Check:
@@ -101,7 +134,7 @@ class Check:
         self.transitions += res['states']
         run = dict(module=module, cfg=cfg or module + '.cfg', states_generated=res['states'],
                    distinct_states=res['distinct'], wall_s=round(res['wall'], 1), ok=res['ok'],
-                   violated=res['violated'])
+                   violated=res['violated'], actions_distinct_generated=res.get('actions', {}))
         self.mc_runs.append(run)
         if must_hold and not res['ok']:
             keep = os.path.join(tlc.WORK, f'mc_violation_{module}.out')
@@ -159,6 +192,9 @@ class Check:
                       f'[{n} case(s) matched its signature; e.g. {detail}]')
             else:
                 self.rejects.append((t, ('REJECT', 'judge reported unlisted finding ' + detail), module))
+        for t in CRASHES:
+            self.counts['REJECT'] = self.counts.get('REJECT', 0) + 1
+            self.rejects.append((t, ('REJECT', 'library-call-raises-undocumented-exception ' + t['exc'].split(' at ')[0] + ' @ ' + t['exc']), 'crash'))
         groups = {}
         for t, v, module in self.rejects:
             groups.setdefault((module, v[1].split(' @ ')[0]), []).append(t)
@@ -243,13 +279,26 @@ def replay(pid, path):
     with open(path) as f:
         r = json.load(f)
     traces = []
+    if r['module'] == 'crash':
+        bad = 0
+        for c in r['cases']:
+            t = make(c['drv'][0], **c['drv'][1])
+            print('REJECT ' + t['exc'] if t.get('kind') == 'crash' else 'no exception', json.dumps(c['drv'])[:300])
+            bad += t.get('kind') == 'crash'
+        if bad:
+            print(f'VIOLATION property={pid} replay={path}')
+        return 1 if bad else 0
     for c in r['cases']:
         if c.get('drv'):
             traces.append(make(c['drv'][0], **c['drv'][1]))
         else:
             traces.append(c['trace'])
-    verdicts, _ = tlc.judge(r['module'], [strip_private(t) for t in traces], tag=f'replay_{pid}')
-    bad = 0
+    crashed = [t for t in traces if t.get('kind') == 'crash']
+    traces = [t for t in traces if t.get('kind') != 'crash']
+    for t in crashed:
+        print('REJECT library-call-raises-undocumented-exception ' + t['exc'], json.dumps(t.get('_drv'))[:300])
+    verdicts, _ = tlc.judge(r['module'], [strip_private(t) for t in traces], tag=f'replay_{pid}') if traces else ([], None)
+    bad = len(crashed)
     for t, v in zip(traces, verdicts):
         print(v[0], v[1], json.dumps(t.get('_drv'))[:300])
         if v[0] == 'REJECT':
